@@ -112,7 +112,18 @@ def digests(a):
 # ------------------------------------------------------------------ sensitivity
 def sensitivity(a):
     mdir = os.path.join(env.VERIF, "selftest", "mutants")
-    cat = json.load(open(os.path.join(mdir, "catalogue.json")))
+    cat = []
+    if os.path.exists(os.path.join(mdir, "catalogue.json")):
+        for m in json.load(open(os.path.join(mdir, "catalogue.json"))):
+            m["patch"] = os.path.join(mdir, m["patch"])
+            cat.append(m)
+    sdir = os.path.join(env.VERIF, "seeded")
+    for d in sorted(os.listdir(sdir)) if os.path.isdir(sdir) else []:
+        mp = os.path.join(sdir, d, "meta.json")
+        if os.path.exists(mp):
+            meta = json.load(open(mp))
+            cat.append({"id": d, "patch": os.path.join(sdir, d, "patch.diff"),
+                        "properties": [meta["property"]], "what": (meta.get("summary") or "")[:120]})
     only = os.environ.get("MUTANTS")
     results = []
     for m in cat:
@@ -122,7 +133,7 @@ def sensitivity(a):
         try:
             dst = os.path.join(tmp, "repo")
             subprocess.run(["rsync", "-a", "--exclude", ".git", env.REPO + "/", dst + "/"], check=True)
-            p = subprocess.run(["patch", "-p1", "-s", "-i", os.path.join(mdir, m["patch"])], cwd=dst,
+            p = subprocess.run(["patch", "-p1", "-s", "-i", m["patch"]], cwd=dst,
                                capture_output=True, text=True)
             if p.returncode != 0:
                 results.append((m["id"], "PATCH-FAILED", p.stdout[-200:] + p.stderr[-200:]))
